@@ -28,7 +28,7 @@ VARIABLES
     mask,      \* 0..7: user feature bits currently enabled
     deps,      \* [rand, kdf, memzero, nfc, nfkd, time, alloc, free |-> "A" | "B" | "C" | "L"]
     heap,      \* live handle |-> [seed, blk]
-    blocks,    \* live block id |-> [size, wiped]
+    blocks,    \* live block id |-> [size, wiped: the byte offsets wiped through the injected memzero so far]
     call       \* the call in flight, or None
 
 vars == <<mask, deps, heap, blocks, call>>
@@ -108,6 +108,9 @@ OpProps(op) ==
 \* a proper prefix of what was due: the phrase was cut short (C17: no phrase is ever truncated)
 CutShort(x, full) == Len(x) < Len(full) /\ x = SubSeq(full, 1, Len(x))
 
+\* the whole block has gone through the injected memzero (in one call or in several pieces, in any order)
+FullyWiped(b) == blocks[b].wiped = 0 .. (blocks[b].size - 1)
+
 NfcConds(ev, dec) ==
     << Cond("nfc-through-injected", {"C18", "C13"}, ev.impl = deps.nfc),
        Cond("nfc-once", {"C03", "C13"}, Count("Nfc") = 0),
@@ -131,7 +134,7 @@ DepConds(ev) ==
                     \/ (op = "Free" /\ call.a.h # 0 /\ call.a.h \in Handles /\ ev.blk = heap[call.a.h].blk)),
                Cond("freed-block-is-zero", {"C16"}, ev.zero),
                Cond("freed-block-wiped-through-injected-memzero", {"C16"},
-                    ev.blk \in DOMAIN blocks => blocks[ev.blk].wiped) >>
+                    ev.blk \in DOMAIN blocks => FullyWiped(ev.blk)) >>
          [] ev.e = "Memzero" ->
             << Cond("memzero-through-injected", {"C18", "C16", "C13"}, ev.impl = deps.memzero),
                Cond("memzero-inside-block", {"C14", "C13"},
@@ -201,10 +204,10 @@ AllOk(conds) == \A i \in 1..Len(conds) : conds[i].ok
 
 DepUpdate(ev) ==
     /\ call' = [call EXCEPT !.log = Append(@, ev)]
-    /\ blocks' = CASE ev.e = "Alloc" /\ ev.blk # 0 -> (ev.blk :> [size |-> ev.size, wiped |-> FALSE]) @@ blocks
+    /\ blocks' = CASE ev.e = "Alloc" /\ ev.blk # 0 -> (ev.blk :> [size |-> ev.size, wiped |-> {}]) @@ blocks
                    [] ev.e = "Free" -> [b \in (DOMAIN blocks) \ {ev.blk} |-> blocks[b]]
-                   [] ev.e = "Memzero" /\ ev.blk >= 1 /\ ev.off = 0 /\ ev.len = blocks[ev.blk].size ->
-                          [blocks EXCEPT ![ev.blk].wiped = TRUE]
+                   [] ev.e = "Memzero" /\ ev.blk >= 1 /\ ev.blk \in DOMAIN blocks ->
+                          [blocks EXCEPT ![ev.blk].wiped = @ \cup (ev.off .. (ev.off + ev.len - 1))]
                    [] OTHER -> blocks
     /\ UNCHANGED <<mask, deps, heap>>
 
